@@ -308,7 +308,62 @@ func c01DirectedPrograms() []*N {
 		mk(n("expr", n("slice", nId("l"), call(1), call(3)))),
 		mk(ns("setitem", "+=", nId("l"), call(1), call(5)), n("expr", nId("l"))),
 	}
+	progs = append(progs, c01DirectedStatements(lg, call)...)
 	return append(progs, c01DirectedErrors()...)
+}
+
+// c01DirectedStatements: statement forms whose meaning hangs on one compiler or VM detail that a
+// generated program only rarely isolates — the value count of a multi-assignment, the post
+// clause of a three-part loop as an expression (popped every time round, many iterations),
+// storage of a slice being separate from the list it was taken from, and a variable of a closed
+// block keeping its own storage when later locals of the same function are declared.
+func c01DirectedStatements(lg *N, call func(int64) *N) []*N {
+	mk := func(stmts ...*N) *N { return n("prog", append([]*N{lg}, stmts...)...) }
+	forPost := func(k int64, post *N) *N {
+		return n("for3", nVar("i", nInt(0)), nInfix("<", nId("i"), nInt(k)), n("expr", post),
+			nBlock(nAssign("i", "+=", nInt(1)), nAssign("t", "+=", nId("i"))))
+	}
+	inFunc := func(body ...*N) []*N {
+		return []*N{n("expr", ns("func", "h", n("params"), nBlock(body...))), n("expr", nCall(nId("h")))}
+	}
+	thunk := func(body ...*N) *N { return ns("func", "", n("params"), nBlock(body...)) }
+	progs := []*N{
+		// multi-assignment: exactly as many values as names
+		mk(ns("multi", "a,b", n("list", call(1), call(2))), n("expr", n("list", nId("a"), nId("b")))),
+		mk(ns("multi", "a,b", n("list", call(1), call(2), call(3))), n("expr", nCall(nId("print"), nStr("unreachable")))),
+		mk(ns("multi", "a,b", n("list", call(1))), n("expr", nCall(nId("print"), nStr("unreachable")))),
+		mk(ns("multi", "a,b,c", n("list", nInt(1), nInt(2), nInt(3), nInt(4), nInt(5))), n("expr", nCall(nId("print"), nStr("unreachable")))),
+		mk(nVar("l", n("list", nInt(1), nInt(2), nInt(3))), n("for3", nVar("i", nInt(0)), nInfix("<", nId("i"), nInt(3)), ns("postfix", "i ++"),
+			nBlock(ns("multi", "p,q", n("slice", nId("l"), nInt(0), nInfix("+", nId("i"), nInt(1)))), n("expr", nCall(nId("print"), nId("p"), nId("q")))))),
+		// slices are copies
+		mk(nVar("l", n("list", nInt(1), nInt(2), nInt(3), nInt(4))), nVar("s", n("slice", nId("l"), nInt(0), nInt(2))),
+			ns("setitem", "=", nId("s"), nInt(0), nInt(99)), n("expr", n("list", nId("l"), nId("s")))),
+		mk(nVar("l", n("list", nInt(1), nInt(2), nInt(3), nInt(4))), nVar("s", n("slice", nId("l"), n("none"), n("none"))),
+			ns("setitem", "=", nId("l"), nInt(1), nInt(77)), n("expr", n("list", nId("l"), nId("s")))),
+		mk(nVar("l", n("list", nInt(1), nInt(2), nInt(3), nInt(4))), nVar("s", n("slice", nId("l"), nInt(1), nInt(2))),
+			n("expr", ns("mcall", "append", nId("s"), nInt(55))), n("expr", n("list", nId("l"), nId("s")))),
+	}
+	// an expression as post clause, at top level and inside a function, for more iterations
+	// than the operand stack has slots
+	for _, k := range []int64{3, 1500} {
+		for _, post := range []*N{nId("i"), nInfix("*", nId("i"), nInt(2)), n("index", n("list", nInt(7), nInt(8)), nInt(0)), n("tern", nInfix(">", nId("i"), nInt(1)), nInt(1), nInt(2))} {
+			progs = append(progs, mk(nVar("t", nInt(0)), forPost(k, post), n("expr", nId("t"))))
+			progs = append(progs, mk(inFunc(nVar("t", nInt(0)), forPost(k, post), n("return", nId("t")))...))
+		}
+	}
+	// … and nested in a range loop, whose iterator sits under whatever the post clause leaves
+	progs = append(progs, mk(nVar("t", nInt(0)), ns("forrange", "k,v", n("list", nInt(10), nInt(20)), nBlock(forPost(3, nId("i")), nAssign("t", "+=", nId("v")))), n("expr", nId("t"))))
+	// a variable declared in a block of a function and captured there keeps its own storage
+	// after the block is closed and further locals are declared
+	progs = append(progs,
+		mk(inFunc(nVar("get", nInt(0)), n("expr", n("if", nBool(true), nBlock(nVar("y", nInt(42)), nAssign("get", "=", thunk(n("return", nId("y"))))))),
+			nVar("z", nStr("later")), nVar("w", nStr("later2")), n("return", n("list", nCall(nId("get")), nId("z"), nId("w"))))...),
+		mk(inFunc(nVar("fs", n("list")), n("for3", nVar("i", nInt(0)), nInfix("<", nId("i"), nInt(2)), ns("postfix", "i ++"),
+			nBlock(n("expr", ns("mcall", "append", nId("fs"), thunk(n("return", nInfix("*", nId("i"), nInt(1)))))))),
+			nVar("after", nInt(1000)), nVar("after2", nInt(2000)),
+			n("return", n("list", nCall(n("index", nId("fs"), nInt(0))), nId("after"), nId("after2"))))...),
+	)
+	return progs
 }
 
 func c01Directed(e *Env) {
